@@ -2182,7 +2182,7 @@ package ucfg
 //@ ensures [uint_kinds] err == nil && baseType != old(tDuration) && baseType != old(tRegexp) && 7 <= rtKind(baseType) && rtKind(baseType) <= 11 && gotypeOf(val) != baseType ==> rvType(r) == baseType && rvUint(r) == toUintVal(val)
 //@ ensures [float_kinds] err == nil && baseType != old(tDuration) && baseType != old(tRegexp) && (rtKind(baseType) == 13 || rtKind(baseType) == 14) && gotypeOf(val) != baseType ==> rvType(r) == baseType && same(rvFloat(r), toFloatVal(val))
 //@ ensures [bool_kind] err == nil && baseType != old(tDuration) && baseType != old(tRegexp) && rtKind(baseType) == 1 && gotypeOf(val) != baseType ==> rvType(r) == baseType && rvBool(r) == toBoolVal(val)
-//@ ensures [string_kind] err == nil && rtKind(baseType) == 24 && gotypeOf(val) != baseType ==> rvAny(r) == toAny(toStringVal(val))
+//@ ensures [string_kind] err == nil && rtKind(baseType) == 24 && gotypeOf(val) != baseType ==> rvType(r) == baseType && rvStr(r) == toStringVal(val)
 
 // pointerize: the value comes back with exactly the target's type (as many pointer levels as the target has)
 //@ func pointerize :: t, base, v -> r
